@@ -22,6 +22,7 @@ pub fn main(args: &[String]) {
         Some(k) => k..k + 1,
         None => 0..runs,
     };
+    let mut trace_findings: u64 = 0;
     for k in range {
         let mut sim = Sim::new(seed.wrapping_mul(1_000_003).wrapping_add(k as u64), rec);
         sim.keep_trace = arg(args, "--trace", "0") != "0";
@@ -43,6 +44,7 @@ pub fn main(args: &[String]) {
             }
         }
         if !sim.adversarial {
+            trace_findings += sim.pt.released_by_duplicate;
             let (c, i) = sim.pt.lines();
             pel[k % nsh].put("pelection", &c, &i);
             let (c2, i2) = sim.pt.llines();
@@ -70,6 +72,7 @@ pub fn main(args: &[String]) {
         s.finish();
     }
     println!("cases={}", total);
+    println!("finding stale-read-by-duplicates {}", trace_findings);
     for (k, v) in hist {
         println!("hist {} {}", k, v);
     }
